@@ -1133,7 +1133,7 @@ func (x *c07Ctx) specialMuts() []c07Mut {
 			out = append(out, c07Mut{Class: "signer", Path: "initiator_signs", Kind: "initak-del-resign", Arg: i})
 		}
 	}
-	for _, k := range []string{"plain-add", "plain-replace", "listed-own", "listed-vpub", "xs-partial", "xs-omit", "xs-ecdsa", "xs-der", "xs-rogue"} {
+	for _, k := range []string{"plain-add", "plain-replace", "listed-own", "listed-vpub", "xs-partial", "xs-omit", "xs-ecdsa", "xs-der", "xs-rogue", "contract-claim-norequest"} {
 		out = append(out, c07Mut{Class: "forge", Kind: k})
 	}
 	if len(T.ContractRequests) > 0 {
@@ -1487,6 +1487,19 @@ func (x *c07Ctx) applySpecial(mut c07Mut) c07Special {
 			sig, _ := hx.Crypt.GenerateMultiSignSignature(sv.Bytes(), rb)
 			f.XuperSign = &pb.XuperSignature{PublicKeys: [][]byte{[]byte(c07PubJSON(ax, ay)), []byte(vk.PubJSON)}, Signature: sig}
 			f.Txid = c07ID(f)
+			res.tx = f
+		case "contract-claim-norequest":
+			// a plain transfer (no contract request at all) of the victim's output that merely DECLARES the input
+			// as spent by contract code; only the attacker signs
+			f := x.pureTransfer(atk.Address, []string{atk.Address}, u, atk.Address, mut.Kind)
+			val, _ := xmodel.MarshalMessages([]*protos.TxInput{c07InputOf(u)})
+			f.TxOutputsExt = []*protos.TxOutputExt{{Bucket: hx.TransientBucket, Key: []byte("ContractUtxo.Inputs"), Value: val}}
+			c07PlainSign(f, [][2]*hx.Key{{atk, atk}}, c07DefWho(func(a string) (*hx.Key, *hx.Key) {
+				if a == atk.Address {
+					return atk, atk
+				}
+				return nil, nil
+			}))
 			res.tx = f
 		case "contract-claim":
 			if len(m.ContractRequests) == 0 {
